@@ -79,3 +79,18 @@ def l5_fold(ctx, results, label):
     if rej and not ctx.violations:
         r, v = rej[0]
         ctx.correspondence_broken(f"L5 dialogue model: a real {label} run is not a run of the model", {"count": len(rej), "first": {"seed": r["seed"], "preempt": r["preempt"], "verdict": v}})
+
+
+def cc_fold(ctx, results, jobs):
+    """tie of the L5c model of connection_check(): every eligible run must be a run of the model with the model's outcome (monitor name
+    "CCrun" must have been requested)"""
+    cc = [(j, r, r.get("cc") or {"cc": "SKIP", "why": "no verdict"}) for j, r in zip(jobs, results)]
+    for _, _, v in cc:
+        ctx.count("l5c:" + v["cc"] + (":" + str(v.get("why")) if v["cc"] == "SKIP" else (":" + str(v.get("outcome")) if v["cc"] == "ACCEPT" else "")))
+    ctx.cov["l5c_runs_executed_by_conncheck_model"] = ctx.cov.get("l5c_runs_executed_by_conncheck_model", 0) + sum(1 for _, _, v in cc if v["cc"] == "ACCEPT")
+    rej = [(j, r, v) for j, r, v in cc if v["cc"] == "REJECT"]
+    ctx.cov["l5c_runs_differing_from_conncheck_model"] = ctx.cov.get("l5c_runs_differing_from_conncheck_model", 0) + len(rej)
+    if rej and not ctx.violations:
+        j, r, v = rej[0]
+        ctx.correspondence_broken("L5c model of connection_check(): a real run is not a run of the model, or returns something else",
+                                  {"count": len(rej), "first": {"spec": j[0], "seed": r["seed"], "preempt": r["preempt"], "verdict": v}})
